@@ -108,6 +108,11 @@ def hex_yaml():
     return _HEX_YAML
 
 
+# created at import time in the process that runs the check, so that forked pool workers inherit the one file
+# (workers leave through os._exit and would never remove a directory of their own)
+hex_yaml()
+
+
 def check_arr(S, arr):
     """the object must report the arrangement the case asked for (guards the temp YAML)"""
     seen = str(S.const["vial_arrangement"])
